@@ -147,6 +147,20 @@ func genC19(seed uint64, i int, tier string) *Scenario {
 		total += nst
 		sc.Clients = append(sc.Clients, cl)
 	}
+	// storage faults in some scenarios: error paths run concurrently too, and state
+	// left behind by a failed call must not leak into another client's statements
+	if r.Chance(0.5) {
+		sc.CFaults = make([][]Fault, n)
+		for c := 0; c < n; c++ {
+			for k := r.Intn(4); k > 0; k-- {
+				kind := FErr
+				if r.Chance(0.25) {
+					kind = FApplied
+				}
+				sc.CFaults[c] = append(sc.CFaults[c], Fault{Call: r.Intn(nst*12 + 1), Kind: kind})
+			}
+		}
+	}
 	// schedule: one entry per yield. Estimated yields: ~25 storage calls per statement.
 	L := total * 40
 	if L > 60000 {
@@ -199,6 +213,7 @@ type multiRes struct {
 	switches int
 	steps    int
 	polls    int
+	faults   int
 }
 
 // runClients executes the scenario under the given schedule (nil = solo).
@@ -225,7 +240,11 @@ func runClients(sc *Scenario, schedule []int) *multiRes {
 	}
 	handles := make([]*Handle, n)
 	for c := 0; c < n; c++ {
-		handles[c] = NewHandle(cores[c], c, nil, sc.Cfg.Lazy, fmt.Sprintf("c%d", c))
+		var cf []Fault
+		if c < len(sc.CFaults) {
+			cf = sc.CFaults[c]
+		}
+		handles[c] = NewHandle(cores[c], c, cf, sc.Cfg.Lazy, fmt.Sprintf("c%d", c))
 		handles[c].yield = schedYield
 	}
 	s32 := make([]int32, len(schedule))
@@ -245,6 +264,9 @@ func runClients(sc *Scenario, schedule []int) *multiRes {
 	})
 	y, sw, nt := schedCounters()
 	out.yields, out.switches = y, sw
+	for c := 0; c < n; c++ {
+		out.faults += len(handles[c].fired)
+	}
 	h := uint64(1469598103934665603)
 	for i := 0; i < nt; i++ {
 		h ^= uint64(uint32(trace[i]))
@@ -335,6 +357,7 @@ func runC19(sc *Scenario, st *Stats) []Violation {
 	st.Polls += conc.polls
 	st.Add("yields", conc.yields)
 	st.Add("context_switches", conc.switches)
+	st.Add("fault_fired:err(any kind, concurrent run)", conc.faults)
 	st.Inc(fmt.Sprintf("clients:%d", len(sc.Clients)))
 	st.Inc("topology:" + sc.Topology)
 	if conc.switches > 0 {
